@@ -20,7 +20,7 @@ type profile struct {
 	uriOverrides                                                                                           bool
 	bigPrices                                                                                              bool
 	settleFail                                                                                             bool
-	storeYields                                                                                            bool
+	storeYields, storeFaults                                                                               bool
 }
 
 var worldReal = []string{"pool.VipnodePool", "pool/balance payPerInterval", "pool/payment PaymentService", "pool/store memory+badger drivers", "request (sign/verify)", "pool.RemotePool", "jsonrpc2 Remote/Server/Client on both ends"}
@@ -36,6 +36,14 @@ func init() {
 		"sequential pool histories (connect/reconnect, keep-alives with arbitrary reports, peer requests, account linking, shared wallets, withdrawals, forged and stale requests, low-balance cut-offs, clock advances to > 15 min) on both drivers; after every operation that returns the credit sum (Stats and per-account getters) is unchanged except by a successful withdrawal",
 		profile{prop: "C01", oracles: []string{"C01"}, connect: 4, reconnect: 2, update: 10, peer: 3, addNode: 3, withdraw: 2, forge: 1, stale: 1, advance: 6, deposit: 1, closeConn: 1, legacy: 1,
 			minOps: 10, maxOps: 60, minBal: []int64{-999, -999, -5, 0, 50, 100000}, bigPrices: true})
+	regWorld("c01_ledger_faults", 400, 25000,
+		"the sequential ledger histories with injected storage errors (any store operation of the pool may fail once or a few times per run, as with a full disk or an I/O error): after every operation that returns - succeeded or failed - the credit sum is unchanged (minus the stored credit for a successful withdrawal)",
+		profile{prop: "C01", oracles: []string{"C01"}, connect: 3, reconnect: 1, update: 12, peer: 1, addNode: 3, withdraw: 2, advance: 6, deposit: 1,
+			minOps: 10, maxOps: 50, minBal: []int64{-999, -999, 0, 50}, storeFaults: true})
+	regWorld("c02_billing_faults", 400, 25000,
+		"keep-alives with injected storage errors: a keep-alive that returns an error (other than the low-balance cut-off) must leave every balance as it was - all or nothing",
+		profile{prop: "C02", oracles: []string{"C02F"}, connect: 3, reconnect: 1, update: 14, addNode: 2, advance: 8,
+			minOps: 10, maxOps: 50, minBal: []int64{-999}, storeFaults: true})
 	regWorld("c02_billing_seq", 500, 30000,
 		"keep-alive runs of light clients with stable and changing tracked-peer sets, elapsed times from 0 to days, prices up to 2^200, peers sharing the client's wallet, host keep-alives, reconnects between keep-alives; every balance is compared with floor(elapsed*price/interval) per active peer; sliced spans are compared with the unsliced total",
 		profile{prop: "C02", oracles: []string{"C02"}, connect: 2, reconnect: 1, update: 16, peer: 0, addNode: 2, advance: 10, deposit: 0, closeConn: 0,
@@ -60,6 +68,10 @@ func init() {
 		"wallets accrue credit through real billing, deposits come from the simulated chain; withdrawals valid / repeated / below the minimum, fee none or constant, settlement failing at chosen attempts; amount paid = balance - fee, nothing left to withdraw afterwards, nothing paid twice, nothing paid or changed on refusal or failure",
 		profile{prop: "C07", oracles: []string{"C07"}, connect: 3, update: 10, addNode: 4, withdraw: 8, advance: 6, deposit: 3, forge: 1,
 			minOps: 12, maxOps: 50, minBal: []int64{-999}, settleFail: true})
+	regWorld("c07_withdraw_faults", 300, 20000,
+		"accrual and withdrawals with one injected storage error per run (balance read, credit debit, nonce save ...): a withdrawal that reports an error has paid nothing and changed nothing, so that the earnings are neither lost nor payable twice",
+		profile{prop: "C07", oracles: []string{"C07"}, connect: 3, update: 8, addNode: 4, withdraw: 10, advance: 5, deposit: 2,
+			minOps: 12, maxOps: 45, minBal: []int64{-999}, storeFaults: true})
 	regWorld("c08_peers_seq", 500, 30000,
 		"populations of hosts and clients of kinds geth / parity / unknown, fresh or stale, connected / closed / reconnected, already peered or not; requested counts -2..supply+3, MaxRequestHosts 0/1/2/5; vipnode_peer and the legacy vipnode_client; per-host whitelist policy ack / error / silent / slow; acknowledgement arrival orders chosen by the scheduler; returned hosts must be eligible and acknowledged before the reply, counts bounded, error only without hosts, reply within the timeout",
 		profile{prop: "C08", oracles: []string{"C08"}, connect: 5, reconnect: 2, update: 6, peer: 12, advance: 5, closeConn: 2, legacy: 2,
@@ -234,7 +246,23 @@ func runWorldSeq(s *kernel.Sim, p profile) {
 	if p.hostPolicies {
 		s.SetYield("hostsvc", 3)
 	}
+	if p.storeFaults {
+		ops := []string{"AddNodeBalance", "AddNodeBalance", "AddAccountBalance", "UpdateNodePeers", "NodePeers", "GetNodeBalance", "GetNode", "SetNode", "AddAccountNode", "GetAccountBalance", "CheckAndSaveNonce"}
+		if p.prop == "C07" {
+			ops = []string{"AddAccountBalance", "AddAccountBalance", "GetAccountBalance", "CheckAndSaveNonce", "AddNodeBalance"}
+		}
+		w.YS.FailPermille = map[string]int{}
+		for k := 1 + s.Choose("nfaultops", 3); k > 0; k-- {
+			w.YS.FailPermille[ops[s.Choose("faultop", len(ops))]] = []int{50, 150, 400}[s.Choose("faultrate", 3)]
+		}
+		w.YS.FailBudget = 1 // one storage error per run: without transactions across store calls nothing can be promised for two
+	}
 	d := NewDirector(w, p.oracles...)
+	if p.storeFaults && p.prop == "C07" {
+		// only withdrawals meet storage errors here, everything else keeps the exact model
+		d.faultWithdrawOnly = true
+		w.YS.SetDisarmed(true)
+	}
 	nops := p.minOps + s.Choose("nops", p.maxOps-p.minOps+1)
 	weights := []int{p.connect, p.reconnect, p.update, p.peer, p.addNode, p.withdraw, p.forge, p.stale, p.advance, p.deposit, p.closeConn, p.legacy}
 	total := 0
